@@ -15,6 +15,15 @@ from ..drivers import fresh, raw_stream
 
 WORD = "UDJFVLHZ"
 HOSTS = ["ind", "ind-T2", "ind-T2-fill", "hex3", "hex-T2member"]
+# chained indicators (input_value = another indicator's plain or dotted reading) inside a Hexital
+CHAINED = {
+    "chain:STDEV<-MACD": [("MACD", dict(fast_period=2, slow_period=3, signal_period=2)), ("STDEV", dict(period=3, input_value="MACD_2_3_2.MACD"))],
+    "chain:Counter<-Supertrend": [("Supertrend", dict(period=2, multiplier=1.0)), ("Counter", dict(input_value="Supertrend_2.direction", count_value=1))],
+    "chain:SMA<-EMA": [("EMA", dict(period=2)), ("SMA", dict(period=3, input_value="EMA_2"))],
+    "chain:STOCH+TSI<-close": [("STOCH", dict(period=3, slow_period=2, smoothing_k=2)), ("TSI", dict(period=3))],
+    "chain:BBANDS<-RSI": [("RSI", dict(period=2)), ("BBANDS", dict(period=3, input_value="RSI_2"))],
+    "chain:mean_rising<-EMA": [("EMA", dict(period=2)), ("Amorph", dict(analysis="mean_rising", indicator="EMA_2", length=3))],
+}
 TOOL = 3  # sys.monitoring.PROFILER_ID + 1 (a free tool id)
 
 COUNTED = ("hexital/indicators/", "hexital/analysis/", "hexital/core/indicator.py", "hexital/utils/candles.py", "hexital/utils/indexing.py")
@@ -80,6 +89,16 @@ def max_param(cfg):
 def build(cfg, host):
     bind_repo()
     from hexital import Hexital
+    if host.startswith("chain:"):
+        from hexital.indicators import INDICATOR_MAP
+        from hexital.analysis import MOVEMENT_MAP
+        inds = []
+        for cls, kw in CHAINED[host]:
+            kw = dict(kw)
+            if cls == "Amorph":
+                kw["analysis"] = MOVEMENT_MAP[kw["analysis"]]
+            inds.append(INDICATOR_MAP[cls](**kw))
+        return Hexital("h", [], inds), None
     if host == "ind":
         return make(cfg), None
     if host == "ind-T2":
@@ -95,7 +114,7 @@ def build(cfg, host):
 def measure(item):
     tier, label, host, rot = item
     cfg = BY_LABEL[label]
-    kind = cfg.get("cls", cfg.get("analysis"))
+    kind = cfg.get("cls", cfg.get("analysis")) if not host.startswith("chain:") else host
     rep = Report()
     N = 300 if tier == "quick" else 1000
     obj, tf = build(cfg, host)
@@ -131,7 +150,7 @@ def measure(item):
         rep.inc("raised_handed_to_C09")
         return rep
     m.close()
-    W = 4 * max_param(cfg) + 10 + (10 if cfg in PATTERNS else 0)
+    W = 4 * max_param(cfg) + 10 + (10 if cfg in PATTERNS else 0) + (12 if host.startswith("chain:") else 0)
     if tf:
         W *= 2  # two raw candles per bucket
     C = max(counts[W:3 * W])
@@ -174,6 +193,7 @@ def main(prop, tier):
     items = [(tier, cfg["label"], host, (r + var["rot"]) % len(WORD)) for cfg in ALL + PATTERNS for host in HOSTS for r in rots]
     items += [(tier, cfg["label"], host, kind) for cfg in ALL + PATTERNS for host in (("ind", "hex3") if tier == "quick" else HOSTS)
               for kind in ("constant", "flat", "trend")]
+    items += [(tier, "SMA2", host, kind) for host in CHAINED for kind in (0, 3, "constant", "flat", "trend")]
     rep = merge_all(pmap(measure, items, chunksize=2))
     rule = ("every indicator config x host {standalone, T2, T2+fill, member of a 3-indicator Hexital, Hexital member on its own timeframe} x "
             "rotations of a periodic stream containing every candle shape: EVERY append n in [1,N] is measured with sys.monitoring (LINE+PY_START "
